@@ -102,14 +102,50 @@ def regen_tables():
     os.makedirs(tmp, exist_ok=True)
     for f in glob.glob(os.path.join(tmp, "*.v")):
         os.remove(f)
+    try:
+        os.remove(os.path.join(tmp, "FAILED.txt"))
+    except OSError:
+        pass
     rc, out = sh([os.path.join(HGO, "harness"), "gen", REPO, tmp], timeout=120)
     if rc != 0:
         return False, out
+    FAILED_TABLES.clear()
+    if os.path.exists(os.path.join(tmp, "FAILED.txt")):
+        for line in open(os.path.join(tmp, "FAILED.txt")):
+            fn, _, err = line.strip().partition("\t")
+            # main.genLocks -> Locks.v ; main.genYangSchema -> YangSchema.v
+            FAILED_TABLES[re.sub(r"^.*\.gen", "", fn) + ".v"] = err
     changed = []
     for f in sorted(glob.glob(os.path.join(tmp, "*.v"))):
         if write_if_changed(os.path.join(gen_dir, os.path.basename(f)), open(f).read()):
             changed.append(os.path.basename(f))
     return True, "changed: %s" % changed
+
+
+FAILED_TABLES = {}      # table file name -> translator error, filled by regen_tables
+
+
+def coq_requires(relpath, seen=None):
+    """transitive closure of the GY modules a Coq file requires (textual scan)"""
+    seen = seen if seen is not None else set()
+    if relpath in seen:
+        return seen
+    seen.add(relpath)
+    try:
+        src = strip_comments(open(os.path.join(COQ, relpath)).read())
+    except OSError:
+        return seen
+    for stmt in re.findall(r"(?:From\s+GY\s+)?Require\s+(?:Import\s+|Export\s+)?([^.]*(?:\.[A-Za-z_][^.]*)*)\.\s", src):
+        for tok in stmt.split():
+            tok = tok.replace("GY.", "")
+            m = re.match(r"^(Base|Gen|Model|Spec|Proofs|Properties)\.([A-Za-z0-9_]+)$", tok)
+            if m:
+                coq_requires("%s/%s.v" % (m.group(1), m.group(2)), seen)
+    return seen
+
+
+def tables_needed(pid):
+    return {os.path.basename(f) for f in coq_requires("Properties/%s.v" % pid) if f.startswith("Gen/")}
 
 
 def coq_files():
@@ -458,6 +494,11 @@ def prepare(pid, need_ml=True, extra_targets=()):
         ok, out = regen_tables()
         if not ok:
             return False, "translator failed:\n" + out[-3000:]
+        broken = {t: e for t, e in FAILED_TABLES.items() if t in tables_needed(pid)}
+        if broken:
+            return False, "translator could not regenerate a table this property depends on: %s" % broken
+        if FAILED_TABLES:
+            log("note: translator failed for %s (not needed by %s; the old table stays in place)" % (sorted(FAILED_TABLES), pid))
         if need_ml:
             ok, out = coq_make(model_vos())
             if not ok:
